@@ -126,7 +126,15 @@ fn run(rng: &mut Rng, _idx: u64, tier: Tier) -> CaseOut {
             style.extra_blanks = rng.chance(1, 3);
             style.redundant_parens = rng.chance(1, 3);
             style.const_variant = rng.below(3);
-            (render_styled(&f, &style, rng), "formula")
+            let text = render_styled(&f, &style, rng);
+            if rng.chance(1, 10) {
+                // every prefix of a valid text is a legal input as well
+                let chars: Vec<char> = text.chars().collect();
+                let cut = rng.below(chars.len() + 1);
+                (chars[..cut].iter().collect(), "truncated_formula")
+            } else {
+                (text, "formula")
+            }
         }
         6 if rng.chance(1, 3) => (deep_string(rng), "deep_nesting"),
         _ => {
